@@ -51,7 +51,7 @@ func bound(sc *proto.Scn, extraPackets int) time.Duration {
 func gen(tier string) []proto.Item {
 	var items []proto.Item
 	cfgs := [][2]int{{300, 10}}
-	ranges := [][2]int{{1, 4}, {1, 30}, {28, 30}, {30, 30}} // (a first TTL above 1: the budget counts the probes of the range, not the last TTL)
+	ranges := [][2]int{{1, 4}, {1, 30}, {28, 30}, {30, 30}, {254, 255}} // (a first TTL above 1: the budget counts the probes of the range, not the last TTL)
 	if tier == "thorough" {
 		cfgs = [][2]int{{300, 10}, {3000, 50}}
 		ranges = [][2]int{{1, 4}, {1, 30}, {250, 255}, {1, 255}}
